@@ -11,6 +11,9 @@
          A sanitizer report / ASSERT abort is the violation (the op line is the replay).
      hl <family> <params...>
          high-level API with exact-size caller buffers (c07_hl.h) -> "ok"
+     blob <tok> ...
+         an op sequence on two blob handles against the real blob.c (c07_blob.h); the visible state after
+         every step is printed and compared with the Lean model; run in the hooked AND the page-rounded build
      co <family> <seed> <params...>
          core encoders/decoders/helpers and containers, two-pass (probe length, allocate exactly,
          decode/encode) with exact-size caller OUTPUT buffers (c07_core.h) -> "ok"
@@ -136,6 +139,7 @@ static int c07_hl(int argc, char** argv) { (void)argc; (void)argv; return 0; }
 #else
 #include "c07_hl.h"
 #endif
+#include "c07_blob.h"
 #ifdef C07_NO_CORE
 static int c07_core(int argc, char** argv) { (void)argc; (void)argv; return 0; }
 #else
@@ -174,6 +178,11 @@ static void handle(int argc, char** argv)
 	if (argc >= 2 && !strcmp(argv[0], "hl"))
 	{
 		if (!c07_hl(argc, argv)) printf("bad-op");
+		return;
+	}
+	if (argc >= 2 && !strcmp(argv[0], "blob"))
+	{
+		if (!c07_blob(argc, argv)) printf("bad-op");
 		return;
 	}
 	if (argc >= 2 && !strcmp(argv[0], "co"))
